@@ -175,10 +175,31 @@ func (f *Frame) checkFrame(st *State, ctx *SpecCtx) {
 	ct := f.contract
 	items := f.parseFootprint(ct, ctx, f.entry)
 	byKey := map[string][]fpItem{}
+	hasAll := false
 	for _, it := range items {
 		if it.all {
-			return
+			hasAll = true
 		}
+	}
+	if hasAll {
+		// "*" with exceptions: the excepted types keep the contents of pre-existing objects
+		for _, it := range items {
+			if !it.except {
+				continue
+			}
+			for _, k := range it.keys {
+				init := u.epochInit(k.key, k.sort, 0)
+				now := u.heapGet(st, k.key, k.sort)
+				if now.S == init.S {
+					continue
+				}
+				goal := T{fmt.Sprintf("(forall ((r!q Int)) (=> (and (<= (root r!q) %s) %s) (= (select %s r!q) (select %s r!q))))", f.entry.alloc.S, u.kindCond(k), now.S, init.S), SBool}
+				u.oblige(st, "frame", "excepted "+k.key, goal, "objects of an excepted type that existed at entry are not written: "+k.key)
+			}
+		}
+		return
+	}
+	for _, it := range items {
 		for _, k := range it.keys {
 			byKey[k.key] = append(byKey[k.key], it)
 		}
